@@ -178,6 +178,8 @@ def _adds(t, conds, out):
         if any(b != bases[0] for b in bases[1:]):
             raise NotAComprehension("branches do not extend one accumulator")
         return bases[0]
+    if t[0] in ("upd", "phi"):
+        raise NotAComprehension("update %s" % (t[2] if t[0] == "upd" else "phi"))
     return t      # anything else is what the accumulator was before: an iterator chain collected, a parameter, ...
 
 
